@@ -653,9 +653,17 @@ class Ledger(Monitor):
                 need = self._requirement(target)
                 before = len(set(a[0].task for a in j["arr"]))
                 if j["fired"] > 0 and not m.in_cycle(target):
-                    # an arrival after the barrier was already satisfied and consumed
-                    j["late"] += 1
-                    run.tags.add("late_arrival_int_join")
+                    # an arrival after the barrier was already satisfied and consumed.  The recorded defect (F1) is that
+                    # the engine then stages the join AGAIN; while the join waits for a retry its staged entry still
+                    # exists and the arrival is merged into it - nothing is staged again, so that case is not tagged
+                    waiting = self.open.get((target, e.route))
+                    if waiting is not None and waiting.state == "retrying":
+                        self.stats["late_arrivals_at_waiting_retry"] = self.stats.get("late_arrivals_at_waiting_retry", 0) + 1
+                    else:
+                        j["late"] += 1
+                        run.tags.add("late_arrival_int_join")
+                        from ovf.mon.rerun import descendants
+                        run.tag_scopes.setdefault("late_arrival_int_join", set()).update(descendants(m, [target]))
                 j["arr"].append((e, tr, ob))
                 self.stats["join_arrivals"] += 1
                 after = len(set(a[0].task for a in j["arr"]))
